@@ -730,6 +730,15 @@ func bigRaw(n int) []byte {
 	return append(b, `0]}`...)
 }
 
+// cachedDoc / cachedText hand the encoder memory they keep (a cached document, a cached name).
+type cachedDoc struct{ b []byte }
+
+func (d *cachedDoc) MarshalJSON() ([]byte, error) { return d.b, nil }
+
+type cachedText struct{ b []byte }
+
+func (d *cachedText) MarshalText() ([]byte, error) { return d.b, nil }
+
 var lentValues = []struct {
 	name string
 	mk   func() (any, [][]byte)
@@ -762,6 +771,25 @@ var lentValues = []struct {
 		return []any{json.RawMessage(r1), json.RawMessage(r2)}, [][]byte{r1, r2}
 	}},
 	{"bytes", func() (any, [][]byte) { b := spare(bytes.Repeat([]byte{7}, 6000), 64); return b, [][]byte{b} }},
+	{"Marshaler returning a document it keeps (with white space and HTML characters)", func() (any, [][]byte) {
+		b := spare([]byte("{ \"a\" : [ 1 , 2 , \"<x> & y\" ] ,\n \"b\" : { } }"), 64)
+		return &cachedDoc{b}, [][]byte{b}
+	}},
+	{"Marshalers returning documents they keep, in a struct, a slice and a map", func() (any, [][]byte) {
+		b1, b2, b3 := spare([]byte("[ 1 , 2 ]"), 32), spare(append([]byte("  "), bigRaw(5000)...), 64), spare([]byte(" \"<s>\" "), 32)
+		return struct {
+			D *cachedDoc
+			L []*cachedDoc
+			M map[string]*cachedDoc
+		}{&cachedDoc{b1}, []*cachedDoc{{b2}}, map[string]*cachedDoc{"k": {b3}}}, [][]byte{b1, b2, b3}
+	}},
+	{"TextMarshalers returning text they keep, as value and as map key", func() (any, [][]byte) {
+		b1, b2 := spare([]byte("text <with> \"quotes\" & é"), 32), spare([]byte("key<1>"), 32)
+		return struct {
+			T *cachedText
+			M map[*cachedText]int
+		}{&cachedText{b1}, map[*cachedText]int{{b2}: 1}}, [][]byte{b1, b2}
+	}},
 	{"number and strings", func() (any, [][]byte) {
 		return struct {
 			N json.Number
@@ -919,7 +947,7 @@ func Spec() *explore.Spec {
 			{Name: "decoder", ShardDepth: 3, Body: decoderFamily, Doc: "Decoder.Decode of the first value of a stream delivered so that the tail is compacted over it / the buffer is reallocated / bytes arrive one at a time / all at once, followed by the next two Decode calls and every sequence of later calls"},
 			{Name: "tokenizer", ShardDepth: 2, Body: tokenizerFamily, Doc: "Tokenizer.String results (slices of the input, or fresh slices for escaped strings) x every sequence of later calls"},
 			{Name: "encode", ShardDepth: 2, Body: encodeFamily, Doc: "Marshal / Encoder.Encode (plain writer; writer that calls the library before consuming its argument, with and without SetIndent) / Append / MarshalIndent of 12 value kinds (incl. outputs larger than a fresh pooled buffer and sorted map[string]RawMessage), with and without a used buffer in the pool, x every sequence of <= 2 (3) later calls incl. GC; Marshal repeated at the end gives the same bytes"},
-			{Name: "lent-values", ShardDepth: 3, Body: lentFamily, Doc: "memory lent to the encoder: 10 values holding RawMessages / byte slices (small, larger than a fresh pooled buffer, larger than a grown one; top-level, behind a pointer, in structs, maps and []any), each with spare capacity behind it x {Marshal, Append x 8 flag subsets x 3 destinations, Encoder x 8 setter combinations x {plain, re-entrant writer}} x every sequence of <= 2 later calls x the moment at which the caller overwrites what it lent (quick: at once or never; thorough: before any of the later calls, or never): neither the contents nor the spare capacity of a lent value is ever written, and the result does not change when the caller overwrites it"},
+			{Name: "lent-values", ShardDepth: 3, Body: lentFamily, Doc: "memory lent to the encoder: 13 values holding RawMessages / byte slices / Marshalers and TextMarshalers that return memory they keep (small, larger than a fresh pooled buffer, larger than a grown one; top-level, behind a pointer, in structs, maps and []any), each with spare capacity behind it x {Marshal, Append x 8 flag subsets x 3 destinations, Encoder x 8 setter combinations x {plain, re-entrant writer}} x every sequence of <= 2 later calls x the moment at which the caller overwrites what it lent (quick: at once or never; thorough: before any of the later calls, or never): neither the contents nor the spare capacity of a lent value is ever written, and the result does not change when the caller overwrites it"},
 		},
 		Rule: "every history op;post* within the bounds; distinct non-trivial = distinct (operation, document/value, flags)",
 		Assumptions: []string{
